@@ -187,8 +187,10 @@ def _digest(obj):
     for name in list(d.get('index', [])):
         a = d.get('_' + name)
         try:
+            # (an object array holds references: hash what they print as, not their addresses)
+            content = repr(a.tolist()).encode() if a.dtype.kind == 'O' else a.tobytes()
             out.append([name, a.dtype.str, int(a.ndim), int(a.shape[0]) if a.ndim else -1,
-                        hashlib.md5(a.tobytes()).hexdigest()[:12]])
+                        hashlib.md5(content).hexdigest()[:12]])
         except Exception:
             out.append([name, type(a).__name__, -1, -1, ''])
     return out
